@@ -960,6 +960,11 @@ def line_map(woven):
 def woven_functions(woven):
     """function ranges in the woven text: list of (start_line, end_line, qual, file)."""
     mask = scan_code(woven)
+    # a woven contract (`:spec` region between signature and body) may contain `==> { &&& .. }` blocks: hide it, so that
+    # the first `{` index_functions sees after the signature is the body's
+    for m in re.finditer(r'/\*@\+ [^*]*?:spec\b[^*]*\*/', woven):
+        e = woven.find('/*@-*/', m.end())
+        if e > 0: mask[m.end():e] = b'\x00' * (e - m.end())
     fns, _ = index_functions(woven, mask)
     lm = line_map(woven)
     out = []
